@@ -69,6 +69,14 @@ type multiErr struct {
 func (e *multiErr) Error() string   { return e.msg }
 func (e *multiErr) Unwrap() []error { return e.causes }
 
+// jmErr: a foreign error type with its own JSON and text marshalers and a String method - as a
+// cause it is still rendered by the library (message, Go type name, causes), never by its own methods
+type jmErr struct{ msg string }
+
+func (e *jmErr) Error() string                { return e.msg }
+func (e *jmErr) MarshalJSON() ([]byte, error) { return []byte(`{"own":"document"}`), nil }
+func (e *jmErr) String() string               { return "own string" }
+
 type leafErr struct{ msg string }
 
 func (e *leafErr) Error() string { return e.msg }
@@ -87,6 +95,7 @@ func jsonByID(id int) func(errdef.Error) ([]byte, error) {
 
 // world is the interpreter state against the real library.
 type world struct {
+	noArgCalls int
 	pool       []gval
 	defs       []errdef.Factory
 	ctxs       []context.Context
@@ -425,6 +434,8 @@ func (w *world) exec(s PStmt) (panicked any) {
 		var e error
 		if s.Ty == "errors" {
 			e = errors.New(s.Msg)
+		} else if s.Ty == "jm" {
+			e = &jmErr{msg: s.Msg}
 		} else {
 			e = &leafErr{msg: s.Msg}
 		}
@@ -460,6 +471,12 @@ func (w *world) runCbTracked(c *PCb, inner map[*PCb]error) error {
 func (w *world) args(ixs []int) []any {
 	if len(ixs) == 0 {
 		w.lastArgs, w.argsCopy = nil, nil
+		// every other call without arguments hands in an empty, non-nil slice (what a forwarding
+		// helper passes): "no arguments" means len(args) == 0
+		w.noArgCalls++
+		if w.noArgCalls%2 == 0 {
+			return make([]any, 0, 2)
+		}
 		return nil
 	}
 	out := make([]any, 0, len(ixs)+3)
@@ -661,7 +678,7 @@ func genProg(r *Rng, cfg p1Cfg) []PStmt {
 			p = append(p, PStmt{T: "multi", Msg: Pick(r, p1Msgs), Cs: errList()})
 			nerrs++
 		case x == 18:
-			p = append(p, PStmt{T: "leaf", Msg: Pick(r, p1Msgs), Ty: Pick(r, []string{"errors", "leaf"})})
+			p = append(p, PStmt{T: "leaf", Msg: Pick(r, p1Msgs), Ty: Pick(r, []string{"errors", "leaf", "errors", "leaf", "jm"})})
 			nerrs++
 		case x == 19:
 			p = append(p, PStmt{T: "defaserr", D: r.Intn(ndefs)})
@@ -682,6 +699,7 @@ func pickFormat(r *Rng, pool []gval) (string, []int) {
 		{"plain", nil}, {"100%% sure", nil}, {"n=%d", []int{3}}, {"%s and %s", []int{22, 23}},
 		{"%[2]d then %[1]d", []int{1, 3}}, {"%v/%q", []int{3, 23}}, {"%[1]s %[1]q", []int{22}},
 		{"%d %[1]v %s", []int{3, 22}}, {"x %5d|%-4s|", []int{1, 22}}, {"", nil}, {"%d%%", []int{3}},
+		{"disk 100% full", nil}, {"50%% of %%", nil},
 	}
 	c := Pick(r, cands)
 	return c.f, c.a
